@@ -728,7 +728,7 @@ func nestedMutations(b []byte, emit func([]byte)) {
 		}
 		n := len(inner)
 		for i := 0; i < n; i++ {
-			wrap(sp, inner[:i])                                               // truncation
+			wrap(sp, inner[:i])                                              // truncation
 			wrap(sp, append(append([]byte{}, inner[:i]...), inner[i+1:]...)) // deletion
 			for _, v := range []byte{0x00, 0x7f, 0x80, 0xff} {
 				m := append([]byte{}, inner...)
